@@ -453,4 +453,1523 @@ bool ident_s(ctx const &c, char const *law, A const &lhs, B const &rhs)
   return false;
 }
 
-//@@PART2@@
+// ------------------------------------------------------------------ operands in the storage variants
+template <class T, size_type R, size_type C>
+struct mat_op
+{
+  using st_t = fm::matrix::static_<T, R, C>;
+  using vs_t = view_storage<T, R * C>;
+  using vw_t = fm::matrix::object<T, R, C, vs_t>;
+  pm<R, C> p;
+  std::array<T, R * C> flat;
+  explicit mat_op(pm<R, C> const &p_) : p(p_), flat{}
+  {
+    for (std::size_t i = 0; i < R; ++i)
+      for (std::size_t j = 0; j < C; ++j)
+        flat[i * C + j] = static_cast<T>(p[i][j]);
+  }
+  st_t st() const
+  {
+    st_t m{fcppt::no_init{}};
+    for (size_type i = 0; i < R * C; ++i)
+      m.storage()[i] = flat[i];
+    return m;
+  }
+  vw_t vw() { return vw_t{vs_t{flat.data()}}; }
+};
+
+// A vector operand: static, view over an array, row 1 of a static 3xN matrix, row 2 of a view 3xN matrix.
+template <class T, size_type N>
+struct vec_op
+{
+  using st_t = fm::vector::static_<T, N>;
+  using vs_t = view_storage<T, N>;
+  using vw_t = fm::vector::object<T, N, vs_t>;
+  using host_s_t = fm::matrix::static_<T, 3, N>;
+  using host_vs_t = view_storage<T, 3 * N>;
+  using host_v_t = fm::matrix::object<T, 3, N, host_vs_t>;
+  pv<N> p;
+  std::array<T, N> flat;
+  std::array<T, 3 * N> hflat;
+  host_s_t host_s;
+  host_v_t host_v;
+  explicit vec_op(pv<N> const &p_) : p(p_), flat{}, hflat{}, host_s{fcppt::no_init{}}, host_v{host_vs_t{hflat.data()}}
+  {
+    for (size_type i = 0; i < N; ++i)
+      flat[i] = static_cast<T>(p[i]);
+    for (size_type i = 0; i < 3 * N; ++i)
+    {
+      // row 1 of host_s and row 2 of host_v hold the vector, everything else a sentinel
+      host_s.storage()[i] = (i / N == 1) ? flat[i % N] : static_cast<T>(77);
+      hflat[i] = (i / N == 2) ? flat[i % N] : static_cast<T>(-77);
+    }
+  }
+  vec_op(vec_op const &) = delete;
+  vec_op &operator=(vec_op const &) = delete;
+  st_t st() const
+  {
+    st_t v{fcppt::no_init{}};
+    for (size_type i = 0; i < N; ++i)
+      v.storage()[i] = flat[i];
+    return v;
+  }
+  vw_t vw() { return vw_t{vs_t{flat.data()}}; }
+  // row of a const static matrix / of a non-const view matrix
+  typename host_s_t::const_reference rs() const { return host_s.get_unsafe(1); }
+  typename host_v_t::reference rv() { return host_v.get_unsafe(2); }
+};
+
+template <class T, size_type N>
+struct dim_op
+{
+  using st_t = fm::dim::static_<T, N>;
+  using vs_t = view_storage<T, N>;
+  using vw_t = fm::dim::object<T, N, vs_t>;
+  pv<N> p;
+  std::array<T, N> flat;
+  explicit dim_op(pv<N> const &p_) : p(p_), flat{}
+  {
+    for (size_type i = 0; i < N; ++i)
+      flat[i] = static_cast<T>(p[i]);
+  }
+  st_t st() const
+  {
+    st_t v{fcppt::no_init{}};
+    for (size_type i = 0; i < N; ++i)
+      v.storage()[i] = flat[i];
+    return v;
+  }
+  vw_t vw() { return vw_t{vs_t{flat.data()}}; }
+};
+
+inline std::uint64_t hash_ll(ll const *p, std::size_t n, std::uint64_t h) { return vf::hash_bytes(p, n * sizeof(ll), h); }
+template <std::size_t R, std::size_t C>
+std::uint64_t hash_pm(pm<R, C> const &m, std::uint64_t h)
+{
+  return hash_ll(&m[0][0], R * C, h);
+}
+
+// two vector operands in one of six storage combinations
+template <class VO, class F>
+void withvec2(unsigned cfg, VO &u, VO &v, F const &f)
+{
+  switch (cfg % 6U)
+  {
+  case 0:
+  {
+    auto const x = u.st(), y = v.st();
+    VF_COUNT("storage/vector/static,static");
+    f(x, y, "ss");
+    break;
+  }
+  case 1:
+  {
+    auto const x = u.vw(), y = v.vw();
+    VF_COUNT("storage/vector/view,view");
+    f(x, y, "vv");
+    break;
+  }
+  case 2:
+  {
+    auto const x = u.st();
+    auto const y = v.vw();
+    VF_COUNT("storage/vector/static,view");
+    f(x, y, "sv");
+    break;
+  }
+  case 3:
+  {
+    auto const x = u.vw();
+    auto const y = v.st();
+    VF_COUNT("storage/vector/view,static");
+    f(x, y, "vs");
+    break;
+  }
+  case 4:
+  {
+    auto const x = u.rs();
+    auto const y = v.rv();
+    VF_COUNT("storage/vector/row-of-static-matrix,row-of-view-matrix");
+    f(x, y, "rq");
+    break;
+  }
+  default:
+  {
+    auto const x = u.rv();
+    auto const y = v.rs();
+    VF_COUNT("storage/vector/row-of-view-matrix,row-of-static-matrix");
+    f(x, y, "qr");
+    break;
+  }
+  }
+}
+
+// ------------------------------------------------------------------ matrix laws
+template <class T, size_type N>
+struct ml
+{
+  using P = pm<N, N>;
+  using PV = pv<N>;
+  using op_t = mat_op<T, N, N>;
+  using S = typename op_t::st_t;
+  using V = typename op_t::vw_t;
+  using vec_t = vec_op<T, N>;
+
+  static std::string inst(char const *cfg)
+  {
+    return std::string(tn<T>()) + "," + std::to_string(N) + "x" + std::to_string(N) + "," + cfg;
+  }
+
+  // ---- one matrix
+  template <class MA>
+  static void unary(ctx const &c, MA const &A, P const &pa)
+  {
+    namespace mx = fm::matrix;
+    // read access
+    static_for<N>([&](auto r) {
+      constexpr size_type Rw = decltype(r)::value;
+      want_v(c, "matrix::at_r", mx::at_r<Rw>(A), pa[Rw]);
+      want_v(c, "matrix::object::get_unsafe", A.get_unsafe(Rw), pa[Rw]);
+      static_for<N>([&](auto cc) {
+        constexpr size_type Cl = decltype(cc)::value;
+        want_s(c, "matrix::at_r_c", mx::at_r_c<Rw, Cl>(A), pa[Rw][Cl]);
+        want_s(c, "matrix::object::get_unsafe", A.get_unsafe(Rw).get_unsafe(Cl), pa[Rw][Cl], "element");
+        {
+          auto const row = mx::at_r<Rw>(A);
+          want_s(c, "vector::at(row)", fm::vector::at<Cl>(row), pa[Rw][Cl]);
+        }
+      });
+    });
+#define VF_MXY(r, cc)                                                                                        \
+  if constexpr ((r) < N && (cc) < N)                                                                         \
+    want_s(c, "matrix::object::m" #r #cc, A.m##r##cc(), pa[r][cc]);
+    VF_MXY(0, 0) VF_MXY(0, 1) VF_MXY(0, 2) VF_MXY(0, 3)
+    VF_MXY(1, 0) VF_MXY(1, 1) VF_MXY(1, 2) VF_MXY(1, 3)
+    VF_MXY(2, 0) VF_MXY(2, 1) VF_MXY(2, 2) VF_MXY(2, 3)
+    VF_MXY(3, 0) VF_MXY(3, 1) VF_MXY(3, 2) VF_MXY(3, 3)
+#undef VF_MXY
+    // minors
+    static_for<N>([&](auto r) {
+      static_for<N>([&](auto cc) {
+        constexpr size_type DR = decltype(r)::value, DC = decltype(cc)::value;
+        want_m(c, "matrix::delete_row_and_column", mx::delete_row_and_column<DR, DC>(A), p_minor(pa, DR, DC));
+      });
+    });
+    // identity
+    auto I = mx::identity<S>();
+    want_m(c, "matrix::identity", I, p_id<N>());
+    ident_m(c, "law:A*I=A", A * I, A);
+    ident_m(c, "law:I*A=A", I * A, A);
+    // init reproduces the matrix from its (row,column) function
+    want_m(c, "matrix::init",
+           mx::init<S>([&pa]<size_type Rw, size_type Cl>(mx::index<Rw, Cl>) { return static_cast<T>(pa[Rw][Cl]); }),
+           pa);
+    want_m(c, "matrix::init",
+           mx::init<S>([]<size_type Rw, size_type Cl>(mx::index<Rw, Cl>) { return static_cast<T>(Rw * 10 + Cl); }),
+           []() {
+             P r{};
+             for (std::size_t i = 0; i < N; ++i)
+               for (std::size_t j = 0; j < N; ++j)
+                 r[i][j] = static_cast<ll>(i * 10 + j);
+             return r;
+           }(),
+           "index");
+    // rows
+    {
+      auto mkrow = [&pa](std::size_t r) {
+        return [&]<std::size_t... J>(std::index_sequence<J...>) {
+          return mx::row(static_cast<T>(pa[r][J])...);
+        }(std::make_index_sequence<N>{});
+      };
+      S const fromrows = [&]<std::size_t... Rw>(std::index_sequence<Rw...>) {
+        return S(mkrow(Rw)...);
+      }(std::make_index_sequence<N>{});
+      want_m(c, "matrix::row", fromrows, pa);
+    }
+    // conversion between storage types, structure_cast
+    {
+      S const copy{A};
+      want_m(c, "matrix::object(other storage)", copy, pa);
+      using O = std::conditional_t<std::is_same_v<T, int>, long, int>;
+      using D = fm::matrix::static_<O, N, N>;
+      want_m(c, "matrix::structure_cast", mx::structure_cast<D, fcppt::cast::static_cast_fun>(A), pa);
+    }
+    // write access through every path
+    {
+      S W{A};
+      P pw = pa;
+      static_for<N>([&](auto r) {
+        static_for<N>([&](auto cc) {
+          constexpr size_type Rw = decltype(r)::value, Cl = decltype(cc)::value;
+          mx::at_r_c<Rw, Cl>(W) = static_cast<T>(100 + Rw * 10 + Cl);
+          pw[Rw][Cl] = 100 + Rw * 10 + Cl;
+          want_m(c, "matrix::at_r_c", W, pw, "write");
+        });
+      });
+      std::array<T, N * N> buf{};
+      V W2{typename op_t::vs_t{buf.data()}};
+      W2 = W;
+      want_m(c, "matrix::object::operator=(other storage)", W2, pw);
+      static_for<N>([&](auto r) {
+        constexpr size_type Rw = decltype(r)::value;
+        W2.get_unsafe(Rw).get_unsafe(N - 1 - Rw) = static_cast<T>(-5 - static_cast<int>(Rw));
+        pw[Rw][N - 1 - Rw] = -5 - static_cast<int>(Rw);
+      });
+      want_m(c, "matrix::object::get_unsafe", W2, pw, "write");
+      for (std::size_t i = 0; i < N * N; ++i)
+        want_s(c, "matrix::object::get_unsafe", buf[i], pw[i / N][i % N], "write-through-view");
+    }
+  }
+
+  // ---- two matrices and a scalar
+  template <class MA, class MB>
+  static void pair(ctx const &c, MA const &A, MB const &B, P const &pa, P const &pb, ll k)
+  {
+    namespace mx = fm::matrix;
+    T const kk = static_cast<T>(k);
+    want_m(c, "matrix::operator+", A + B, p_add(pa, pb));
+    want_m(c, "matrix::operator-", A - B, p_sub(pa, pb));
+    auto const AB = A * B;
+    P const pab = p_mul(pa, pb);
+    want_m(c, "matrix::operator*", AB, pab);
+    want_m(c, "matrix::operator*(scalar,matrix)", kk * B, p_smul(k, pb));
+    want_m(c, "matrix::operator*(matrix,scalar)", A * kk, p_smul(k, pa));
+    auto const tA = mx::transpose(A);
+    auto const tB = mx::transpose(B);
+    want_m(c, "matrix::transpose", tA, p_tr(pa));
+    ident_m(c, "law:(A^T)^T=A", mx::transpose(tA), A);
+    ident_m(c, "law:(AB)^T=B^T*A^T", mx::transpose(AB), tB * tA);
+    T const dA = mx::determinant(A), dB = mx::determinant(B);
+    ll const pda = p_det(pa);
+    want_s(c, "matrix::determinant", dA, pda);
+    ident_s(c, "law:det(AB)=det(A)*det(B)", mx::determinant(AB), dA * dB);
+    ident_s(c, "law:det(A^T)=det(A)", mx::determinant(tA), dA);
+    auto const adjA = mx::adjugate(A);
+    want_m(c, "matrix::adjugate", adjA, p_adj(pa));
+    auto const dI = dA * mx::identity<S>();
+    ident_m(c, "law:A*adj(A)=det(A)*I", A * adjA, dI);
+    ident_m(c, "law:adj(A)*A=det(A)*I", adjA * A, dI);
+    if (pda == 0)
+      VF_COUNT("matrix/det/zero");
+    else
+      VF_COUNT("matrix/det/nonzero");
+    if (pa != p_tr(pa))
+      VF_COUNT("matrix/nonsymmetric");
+    if (pab != p_mul(pb, pa))
+      VF_COUNT("matrix/noncommuting-pair");
+    // comparison
+    bool const same = pa == pb;
+    want_b(c, "matrix::operator==", A == B, same);
+    want_b(c, "matrix::operator!=", A != B, !same);
+    if (same)
+      VF_COUNT("matrix/cmp/equal");
+    else
+    {
+      unsigned nd = 0;
+      for (std::size_t i = 0; i < N; ++i)
+        for (std::size_t j = 0; j < N; ++j)
+          nd += pa[i][j] != pb[i][j];
+      if (nd == 1)
+        VF_COUNT("matrix/cmp/differ-in-one-entry");
+      if (nd == 1 && pa[N - 1][N - 1] != pb[N - 1][N - 1])
+        VF_COUNT("matrix/cmp/differ-in-last-entry-only");
+      VF_COUNT("matrix/cmp/different");
+    }
+    {
+      S const copyA{A};
+      want_b(c, "matrix::operator==", copyA == A, true, "copy");
+      want_b(c, "matrix::operator!=", A != copyA, false, "copy");
+    }
+    // compound assignment on a static and on a view target
+    {
+      S W{A};
+      W += B;
+      want_m(c, "matrix::object::operator+=", W, p_add(pa, pb));
+      W -= B;
+      want_m(c, "matrix::object::operator-=", W, pa);
+      W -= B;
+      want_m(c, "matrix::object::operator-=", W, p_sub(pa, pb));
+      W *= kk;
+      want_m(c, "matrix::object::operator*=", W, p_smul(k, p_sub(pa, pb)));
+      std::array<T, N * N> buf{};
+      for (std::size_t i = 0; i < N * N; ++i)
+        buf[i] = static_cast<T>(pa[i / N][i % N]);
+      V W2{typename op_t::vs_t{buf.data()}};
+      W2 += B;
+      want_m(c, "matrix::object::operator+=", W2, p_add(pa, pb), "view-target");
+      W2 *= kk;
+      want_m(c, "matrix::object::operator*=", W2, p_smul(k, p_add(pa, pb)), "view-target");
+      W2 -= A;
+      want_m(c, "matrix::object::operator-=", W2, p_sub(p_smul(k, p_add(pa, pb)), pa), "view-target");
+    }
+  }
+
+  // ---- three matrices
+  template <class MA, class MB, class MC>
+  static void triple(ctx const &c, MA const &A, MB const &B, MC const &C, P const &pa, P const &pb, P const &pc)
+  {
+    auto const AB = A * B;
+    auto const BC = B * C;
+    auto const AC = A * C;
+    auto const l1 = AB * C;
+    want_m(c, "matrix::operator*", l1, p_mul(p_mul(pa, pb), pc), "triple-product");
+    ident_m(c, "law:(AB)C=A(BC)", l1, A * BC);
+    auto const l2 = A * (B + C);
+    want_m(c, "matrix::operator*", l2, p_mul(pa, p_add(pb, pc)), "product-of-sum");
+    ident_m(c, "law:A(B+C)=AB+AC", l2, AB + AC);
+    ident_m(c, "law:(A+B)C=AC+BC", (A + B) * C, AC + BC);
+    ident_m(c, "law:A(B-C)=AB-AC", A * (B - C), AB - AC);
+  }
+
+  // ---- matrices and vectors
+  template <class MA, class MB, class VU, class VV>
+  static void matvec(ctx const &c, MA const &A, MB const &B, VU const &u, VV const &v, P const &pa, P const &pb,
+                     PV const &pu, PV const &pvv)
+  {
+    auto const Au = A * u;
+    want_v(c, "matrix::operator*(matrix,vector)", Au, p_mv(pa, pu));
+    auto const Av = A * v;
+    want_v(c, "matrix::operator*(matrix,vector)", Av, p_mv(pa, pvv));
+    ident_v(c, "law:A(u+v)=Au+Av", A * (u + v), Au + Av);
+    ident_v(c, "law:(AB)u=A(Bu)", (A * B) * u, A * (B * u));
+    ident_v(c, "law:(A+B)u=Au+Bu", (A + B) * u, Au + B * u);
+    ident_s(c, "law:(Au).v=u.(A^T v)", fm::vector::dot(Au, fm::vector::static_<T, N>{v}),
+            fm::vector::dot(fm::vector::static_<T, N>{u}, fm::matrix::transpose(A) * v));
+    bool nz = false;
+    for (auto x : p_mv(pa, pu))
+      nz = nz || x != 0;
+    if (nz)
+      VF_COUNT("matrix/matvec/nonzero-result");
+  }
+
+  // dispatch on the storage configuration
+  template <class F>
+  static void with2(unsigned cfg, op_t &a, op_t &b, F const &f)
+  {
+    switch (cfg % 4U)
+    {
+    case 0:
+    {
+      S const x = a.st(), y = b.st();
+      VF_COUNT("storage/matrix/static,static");
+      f(x, y, "ss");
+      break;
+    }
+    case 1:
+    {
+      V const x = a.vw(), y = b.vw();
+      VF_COUNT("storage/matrix/view,view");
+      f(x, y, "vv");
+      break;
+    }
+    case 2:
+    {
+      S const x = a.st();
+      V const y = b.vw();
+      VF_COUNT("storage/matrix/static,view");
+      f(x, y, "sv");
+      break;
+    }
+    default:
+    {
+      V const x = a.vw();
+      S const y = b.st();
+      VF_COUNT("storage/matrix/view,static");
+      f(x, y, "vs");
+      break;
+    }
+    }
+  }
+  // a third operand: static for even, view for odd
+  template <class F>
+  static void with1(unsigned cfg, op_t &a, F const &f)
+  {
+    if (cfg % 2U == 0)
+    {
+      S const x = a.st();
+      f(x, "s");
+    }
+    else
+    {
+      V const x = a.vw();
+      f(x, "v");
+    }
+  }
+  static void run_unary(op_t &a, unsigned cfg)
+  {
+    with1(cfg, a, [&](auto const &A, char const *cn) {
+      ctx c{inst(cn), [&] { return "A=" + show(a.p); }};
+      unary(c, A, a.p);
+    });
+  }
+  static void run_pair(op_t &a, op_t &b, ll k, unsigned cfg)
+  {
+    with2(cfg, a, b, [&](auto const &A, auto const &B, char const *cn) {
+      ctx c{inst(cn), [&] { return "A=" + show(a.p) + " B=" + show(b.p) + " k=" + std::to_string(k); }};
+      pair(c, A, B, a.p, b.p, k);
+    });
+  }
+  static void run_triple(op_t &a, op_t &b, op_t &cm, unsigned cfg)
+  {
+    // configurations: sss, vvv, svs, vsv
+    with2(cfg, a, b, [&](auto const &A, auto const &B, char const *cn) {
+      with1(cfg, cm, [&](auto const &C, char const *c3) {
+        ctx c{inst((std::string(cn) + c3).c_str()),
+              [&] { return "A=" + show(a.p) + " B=" + show(b.p) + " C=" + show(cm.p); }};
+        triple(c, A, B, C, a.p, b.p, cm.p);
+      });
+    });
+  }
+  static void run_matvec(op_t &a, op_t &b, vec_t &u, vec_t &v, unsigned cfg)
+  {
+    // matrix storage from cfg % 2, vector storages from cfg / 2
+    with1(cfg, a, [&](auto const &A, char const *cn) {
+      S const B = b.st();
+      withvec2(cfg / 2U, u, v, [&](auto const &U, auto const &Vv, char const *vn) {
+        ctx c{inst((std::string(cn) + "*" + vn).c_str()), [&] {
+                return "A=" + show(a.p) + " B=" + show(b.p) + " u=" + show(u.p) + " v=" + show(v.p);
+              }};
+        matvec(c, A, B, U, Vv, a.p, b.p, u.p, v.p);
+      });
+    });
+  }
+};
+
+// ------------------------------------------------------------------ vector and dim laws
+struct vec_kind
+{
+  static constexpr bool is_vector = true;
+  static char const *name() { return "vector"; }
+  template <class T, size_type N>
+  using st = fm::vector::static_<T, N>;
+  template <class T, size_type N, class S>
+  using obj = fm::vector::object<T, N, S>;
+  template <class T, size_type N>
+  using op = vec_op<T, N>;
+  template <class V>
+  static auto null() { return fm::vector::null<V>(); }
+  template <class V>
+  static V fill(typename V::value_type const &k) { return fm::vector::fill<V>(k); }
+  template <class V, class F>
+  static V init(F const &f) { return fm::vector::init<V>(f); }
+  template <class D, class V>
+  static D narrow(V const &v) { return fm::vector::narrow_cast<D>(v); }
+  template <class V, class T>
+  static auto push(V const &v, T const &k) { return fm::vector::push_back(v, k); }
+  template <class D, class V>
+  static D scast(V const &v) { return fm::vector::structure_cast<D, fcppt::cast::static_cast_fun>(v); }
+  template <size_type I, class V>
+  static decltype(auto) at(V &v) { return fm::vector::at<I>(v); }
+};
+struct dim_kind
+{
+  static constexpr bool is_vector = false;
+  static char const *name() { return "dim"; }
+  template <class T, size_type N>
+  using st = fm::dim::static_<T, N>;
+  template <class T, size_type N, class S>
+  using obj = fm::dim::object<T, N, S>;
+  template <class T, size_type N>
+  using op = dim_op<T, N>;
+  template <class V>
+  static auto null() { return fm::dim::null<V>(); }
+  template <class V>
+  static V fill(typename V::value_type const &k) { return fm::dim::fill<V>(k); }
+  template <class V, class F>
+  static V init(F const &f) { return fm::dim::init<V>(f); }
+  template <class D, class V>
+  static D narrow(V const &v) { return fm::dim::narrow_cast<D>(v); }
+  template <class V, class T>
+  static auto push(V const &v, T const &k) { return fm::dim::push_back(v, k); }
+  template <class D, class V>
+  static D scast(V const &v) { return fm::dim::structure_cast<D, fcppt::cast::static_cast_fun>(v); }
+  template <size_type I, class V>
+  static decltype(auto) at(V &v) { return fm::dim::at<I>(v); }
+};
+
+template <class K, class T, size_type N>
+struct vl
+{
+  using PV = pv<N>;
+  using op_t = typename K::template op<T, N>;
+  using S = typename K::template st<T, N>;
+  using VS = view_storage<T, N>;
+  using V = typename K::template obj<T, N, VS>;
+
+  static std::string inst(char const *cfg)
+  {
+    return std::string(tn<T>()) + "," + std::to_string(N) + "," + cfg;
+  }
+  static std::string opn(char const *what) { return std::string(K::name()) + "::" + what; }
+
+  template <class U>
+  static void unary(ctx const &c, U const &u, PV const &pu, ll k)
+  {
+    T const kk = static_cast<T>(k);
+    // read access
+    static_for<N>([&](auto i) {
+      constexpr size_type I = decltype(i)::value;
+      want_s(c, opn("at").c_str(), K::template at<I>(u), pu[I]);
+      want_s(c, opn("object::get_unsafe").c_str(), u.get_unsafe(I), pu[I]);
+    });
+    if constexpr (K::is_vector)
+    {
+      want_s(c, "vector::object::x", u.x(), pu[0]);
+      if constexpr (N >= 2)
+        want_s(c, "vector::object::y", u.y(), pu[1]);
+      if constexpr (N >= 3)
+        want_s(c, "vector::object::z", u.z(), pu[2]);
+      if constexpr (N >= 4)
+        want_s(c, "vector::object::w", u.w(), pu[3]);
+    }
+    else
+    {
+      want_s(c, "dim::object::w", u.w(), pu[0]);
+      if constexpr (N >= 2)
+        want_s(c, "dim::object::h", u.h(), pu[1]);
+      if constexpr (N >= 3)
+        want_s(c, "dim::object::d", u.d(), pu[2]);
+    }
+    // negation and scalar products
+    want_v(c, opn("operator-(unary)").c_str(), -u, p_vsmul(-1, pu));
+    want_v(c, opn("operator*(scalar,x)").c_str(), kk * u, p_vsmul(k, pu));
+    want_v(c, opn("operator*(x,scalar)").c_str(), u * kk, p_vsmul(k, pu));
+    // null, fill, init
+    want_v(c, opn("null").c_str(), K::template null<U>(), PV{});
+    {
+      PV f{};
+      f.fill(k);
+      want_v(c, opn("fill").c_str(), K::template fill<S>(kk), f);
+    }
+    want_v(c, opn("init").c_str(), K::template init<S>([&pu](size_type i) { return static_cast<T>(pu[i]); }), pu);
+    {
+      PV idx{};
+      for (std::size_t i = 0; i < N; ++i)
+        idx[i] = static_cast<ll>(3 * i + 1);
+      want_v(c, opn("init").c_str(), K::template init<S>([](size_type i) { return static_cast<T>(3 * i + 1); }), idx,
+             "index");
+    }
+    // conversions
+    {
+      S const copy{u};
+      want_v(c, opn("object(other storage)").c_str(), copy, pu);
+      using O = std::conditional_t<std::is_same_v<T, int>, long, int>;
+      want_v(c, opn("structure_cast").c_str(), K::template scast<typename K::template st<O, N>>(u), pu);
+    }
+    // narrow_cast to every smaller dimension, push_back
+    static_for<N>([&](auto m) {
+      constexpr size_type M = decltype(m)::value;
+      if constexpr (M >= 1)
+      {
+        pv<M> w{};
+        for (std::size_t i = 0; i < M; ++i)
+          w[i] = pu[i];
+        want_v(c, opn("narrow_cast").c_str(), K::template narrow<typename K::template st<T, M>>(u), w);
+      }
+    });
+    {
+      pv<N + 1> w{};
+      for (std::size_t i = 0; i < N; ++i)
+        w[i] = pu[i];
+      w[N] = k;
+      auto const pb = K::push(u, kk);
+      want_v(c, opn("push_back").c_str(), pb, w);
+      ident_v(c, (std::string("law:narrow_cast(push_back(x,k))=x/") + K::name()).c_str(),
+              K::template narrow<S>(pb), u);
+    }
+    // write access on a static and a view target
+    {
+      S W{u};
+      PV pw = pu;
+      static_for<N>([&](auto i) {
+        constexpr size_type I = decltype(i)::value;
+        K::template at<I>(W) = static_cast<T>(50 + I);
+        pw[I] = 50 + I;
+        want_v(c, opn("at").c_str(), W, pw, "write");
+      });
+      std::array<T, N> buf{};
+      V W2{VS{buf.data()}};
+      W2 = W;
+      want_v(c, opn("object::operator=(other storage)").c_str(), W2, pw);
+      W2.get_unsafe(N - 1) = static_cast<T>(-3);
+      pw[N - 1] = -3;
+      for (std::size_t i = 0; i < N; ++i)
+        want_s(c, opn("object::get_unsafe").c_str(), buf[i], pw[i], "write-through-view");
+    }
+  }
+
+  template <class U, class W>
+  static void pair(ctx const &c, U const &u, W const &v, PV const &pu, PV const &pw, ll k)
+  {
+    T const kk = static_cast<T>(k);
+    want_v(c, opn("operator+").c_str(), u + v, p_zip(pu, pw, std::plus<ll>{}));
+    want_v(c, opn("operator-").c_str(), u - v, p_zip(pu, pw, std::minus<ll>{}));
+    want_v(c, opn("operator*").c_str(), u * v, p_zip(pu, pw, std::multiplies<ll>{}));
+    ident_v(c, (std::string("law:k(u+v)=ku+kv/") + K::name()).c_str(), kk * (u + v), kk * u + kk * v);
+    ident_v(c, (std::string("law:u-v=u+(-v)/") + K::name()).c_str(), u - v, u + (-v));
+    // equality
+    bool const same = pu == pw;
+    want_b(c, opn("operator==").c_str(), u == v, same);
+    want_b(c, opn("operator!=").c_str(), u != v, !same);
+    {
+      S const copy{u};
+      want_b(c, opn("operator==").c_str(), copy == u, true, "copy");
+      want_b(c, opn("operator!=").c_str(), u != copy, false, "copy");
+    }
+    // compound assignment, static and view targets
+    {
+      S X{u};
+      X += v;
+      want_v(c, opn("object::operator+=").c_str(), X, p_zip(pu, pw, std::plus<ll>{}));
+      X -= v;
+      X -= v;
+      want_v(c, opn("object::operator-=").c_str(), X, p_zip(pu, pw, std::minus<ll>{}));
+      X *= v;
+      auto const prod = p_zip(p_zip(pu, pw, std::minus<ll>{}), pw, std::multiplies<ll>{});
+      want_v(c, opn("object::operator*=").c_str(), X, prod);
+      X *= kk;
+      want_v(c, opn("object::operator*=(scalar)").c_str(), X, p_vsmul(k, prod));
+      std::array<T, N> buf{};
+      for (std::size_t i = 0; i < N; ++i)
+        buf[i] = static_cast<T>(pu[i]);
+      V Y{VS{buf.data()}};
+      Y += v;
+      want_v(c, opn("object::operator+=").c_str(), Y, p_zip(pu, pw, std::plus<ll>{}), "view-target");
+      Y *= kk;
+      want_v(c, opn("object::operator*=(scalar)").c_str(), Y, p_vsmul(k, p_zip(pu, pw, std::plus<ll>{})), "view-target");
+      Y -= u;
+      Y *= v;
+      want_v(c, opn("object::operator*=").c_str(), Y,
+             p_zip(p_zip(p_vsmul(k, p_zip(pu, pw, std::plus<ll>{})), pu, std::minus<ll>{}), pw, std::multiplies<ll>{}),
+             "view-target");
+    }
+    if constexpr (K::is_vector)
+    {
+      namespace vx = fm::vector;
+      ll const d = p_dot(pu, pw);
+      want_s(c, "vector::dot", vx::dot(u, v), d);
+      ident_s(c, "law:u.v=v.u", vx::dot(u, v), vx::dot(v, u));
+      want_s(c, "vector::length_square", vx::length_square(u), p_dot(pu, pu));
+      ident_s(c, "law:length_square(u)=u.u", vx::length_square(u), vx::dot(u, u));
+      ident_s(c, "law:(u+v).(u+v)=u.u+2u.v+v.v", vx::length_square(u + v),
+              vx::length_square(u) + 2 * vx::dot(u, v) + vx::length_square(v));
+      if (d != 0)
+        VF_COUNT("vector/dot/nonzero");
+      if constexpr (N == 3)
+      {
+        auto const cr = vx::cross(u, v);
+        auto const pc = p_cross(pu, pw);
+        want_v(c, "vector::cross", cr, pc);
+        ident_v(c, "law:uxv=-(vxu)", cr, -vx::cross(v, u));
+        ident_s(c, "law:u.(uxv)=0", vx::dot(S{u}, cr), 0);
+        ident_s(c, "law:v.(uxv)=0", vx::dot(cr, v), 0);
+        ident_s(c, "law:|uxv|^2=|u|^2|v|^2-(u.v)^2", vx::length_square(cr),
+                vx::length_square(u) * vx::length_square(v) - vx::dot(u, v) * vx::dot(u, v));
+        if (pc != pv<3>{})
+          VF_COUNT("vector/cross/nonzero");
+        else
+          VF_COUNT("vector/cross/zero");
+      }
+    }
+  }
+
+  // ordering needs both operands of the same type
+  template <class U>
+  static void order(ctx const &c, U const &u, U const &v, PV const &pu, PV const &pw)
+  {
+    want_b(c, opn("operator<").c_str(), u < v, pu < pw);
+    want_b(c, opn("operator>").c_str(), u > v, pu > pw);
+    want_b(c, opn("operator<=").c_str(), u <= v, pu <= pw);
+    want_b(c, opn("operator>=").c_str(), u >= v, pu >= pw);
+    want_b(c, opn("operator<").c_str(), v < u, pw < pu, "swapped");
+    if (pu == pw)
+      VF_COUNT("cmp/equal");
+    else
+    {
+      std::size_t first = 0;
+      while (pu[first] == pw[first])
+        ++first;
+      if (first == N - 1)
+        VF_COUNT("cmp/differ-in-last-component-only");
+      if (first > 0 || N == 1)
+        VF_COUNT("cmp/equal-prefix-then-different");
+      bool later_opposite = false;
+      for (std::size_t i = first + 1; i < N; ++i)
+        later_opposite = later_opposite || ((pu[i] < pw[i]) != (pu[first] < pw[first]) && pu[i] != pw[i]);
+      if (later_opposite)
+        VF_COUNT("cmp/later-component-ordered-the-other-way");
+      if (pu < pw)
+        VF_COUNT("cmp/less");
+      else
+        VF_COUNT("cmp/greater");
+    }
+  }
+
+  template <class F>
+  static void with2(unsigned cfg, op_t &u, op_t &v, F const &f)
+  {
+    if constexpr (K::is_vector)
+      withvec2(cfg, u, v, f);
+    else
+      switch (cfg % 4U)
+      {
+      case 0:
+      {
+        auto const x = u.st(), y = v.st();
+        VF_COUNT("storage/dim/static,static");
+        f(x, y, "ss");
+        break;
+      }
+      case 1:
+      {
+        auto const x = u.vw(), y = v.vw();
+        VF_COUNT("storage/dim/view,view");
+        f(x, y, "vv");
+        break;
+      }
+      case 2:
+      {
+        auto const x = u.st();
+        auto const y = v.vw();
+        VF_COUNT("storage/dim/static,view");
+        f(x, y, "sv");
+        break;
+      }
+      default:
+      {
+        auto const x = u.vw();
+        auto const y = v.st();
+        VF_COUNT("storage/dim/view,static");
+        f(x, y, "vs");
+        break;
+      }
+      }
+  }
+
+  // everything for one pair of operands; cfg selects the storage combination
+  static void run(pv<N> const &pu, pv<N> const &pw, ll k, unsigned cfg)
+  {
+    op_t u(pu), v(pw);
+    auto desc = [&] { return "u=" + show(pu) + " v=" + show(pw) + " k=" + std::to_string(k); };
+    with2(cfg, u, v, [&](auto const &U, auto const &W, char const *cn) {
+      ctx c{inst(cn), desc};
+      pair(c, U, W, pu, pw, k);
+      if constexpr (std::is_same_v<std::remove_cvref_t<decltype(U)>, std::remove_cvref_t<decltype(W)>>)
+        order(c, U, W, pu, pw);
+      unary(c, U, pu, k);
+    });
+    if constexpr (K::is_vector)
+    {
+      // rows of the same matrix type have the same type, so they can be ordered
+      if (cfg % 6U >= 4U)
+      {
+        ctx c{inst("rr"), desc};
+        order(c, u.rs(), v.rs(), pu, pw);
+        ctx c2{inst("qq"), desc};
+        order(c2, u.rv(), v.rv(), pu, pw);
+      }
+    }
+  }
+};
+
+// ------------------------------------------------------------------ generators
+template <std::size_t N>
+pv<N> rnd_vec(vf::rng &g)
+{
+  pv<N> v{};
+  switch (g.below(6))
+  {
+  case 0: // sparse
+    for (auto &x : v)
+      x = g.chance(1, 3) ? g.range(-9, 9) : 0;
+    break;
+  case 1: // small
+    for (auto &x : v)
+      x = g.range(-1, 1);
+    break;
+  default:
+    for (auto &x : v)
+      x = g.range(-9, 9);
+  }
+  return v;
+}
+// a second operand that is often close to the first one (equality and ordering need near misses)
+template <std::size_t N>
+pv<N> rnd_vec_near(vf::rng &g, pv<N> const &u)
+{
+  switch (g.below(8))
+  {
+  case 0:
+    return u;
+  case 1:
+  case 2:
+  {
+    pv<N> v = u;
+    std::size_t i = g.chance(1, 2) ? N - 1 : static_cast<std::size_t>(g.below(N));
+    v[i] = v[i] >= 9 ? v[i] - 1 : (v[i] <= -9 ? v[i] + 1 : v[i] + (g.chance(1, 2) ? 1 : -1));
+    // make the components after the first difference disagree the other way round
+    for (std::size_t j = i + 1; j < N; ++j)
+      if (g.chance(1, 2))
+        v[j] = v[i] < u[i] ? 9 : -9;
+    return v;
+  }
+  default:
+    return rnd_vec<N>(g);
+  }
+}
+template <std::size_t N>
+pm<N, N> rnd_matrix(vf::rng &g)
+{
+  pm<N, N> m{};
+  auto uniform = [&](ll lo, ll hi) {
+    for (auto &r : m)
+      for (auto &x : r)
+        x = g.range(lo, hi);
+  };
+  switch (g.below(10))
+  {
+  case 0: // sparse
+    for (auto &r : m)
+      for (auto &x : r)
+        x = g.chance(1, 3) ? g.range(-9, 9) : 0;
+    break;
+  case 1: // singular: one row repeats another
+  {
+    uniform(-9, 9);
+    std::size_t i = static_cast<std::size_t>(g.below(N)), j = static_cast<std::size_t>(g.below(N));
+    if (i != j)
+      m[j] = m[i];
+    else
+      m[i].fill(0);
+    break;
+  }
+  case 2: // symmetric
+    uniform(-9, 9);
+    for (std::size_t i = 0; i < N; ++i)
+      for (std::size_t j = 0; j < i; ++j)
+        m[i][j] = m[j][i];
+    break;
+  case 3: // small entries (determinant +-1 is frequent)
+    uniform(-1, 1);
+    break;
+  case 4: // signed permutation matrix
+  {
+    std::array<std::size_t, N> perm{};
+    std::iota(perm.begin(), perm.end(), std::size_t{0});
+    for (std::size_t i = N; i > 1; --i)
+      std::swap(perm[i - 1], perm[static_cast<std::size_t>(g.below(i))]);
+    for (std::size_t i = 0; i < N; ++i)
+      m[i][perm[i]] = g.chance(1, 2) ? 1 : -1;
+    break;
+  }
+  case 5: // upper triangular
+    uniform(-9, 9);
+    for (std::size_t i = 0; i < N; ++i)
+      for (std::size_t j = 0; j < i; ++j)
+        m[i][j] = 0;
+    break;
+  default:
+    uniform(-9, 9);
+  }
+  return m;
+}
+template <std::size_t N>
+pm<N, N> rnd_matrix_near(vf::rng &g, pm<N, N> const &a)
+{
+  switch (g.below(12))
+  {
+  case 0:
+    return a;
+  case 1:
+  case 2:
+  {
+    pm<N, N> b = a;
+    std::size_t i = N - 1, j = N - 1;
+    if (g.chance(1, 2))
+    {
+      i = static_cast<std::size_t>(g.below(N));
+      j = static_cast<std::size_t>(g.below(N));
+    }
+    b[i][j] = b[i][j] >= 9 ? 8 : b[i][j] + 1;
+    return b;
+  }
+  default:
+    return rnd_matrix<N>(g);
+  }
+}
+
+// the 256 2x2 matrices over {-1,0,1,2}; index digits are the entries in row-major order
+inline pm<2, 2> m2_of(unsigned idx)
+{
+  pm<2, 2> m{};
+  for (std::size_t i = 0; i < 4; ++i)
+    m[i / 2][i % 2] = static_cast<ll>((idx >> (2 * (3 - i))) & 3U) - 1;
+  return m;
+}
+inline pv<2> v2_of(unsigned idx) { return pv<2>{static_cast<ll>((idx >> 2) & 3U) - 1, static_cast<ll>(idx & 3U) - 1}; }
+
+// ------------------------------------------------------------------ entries
+// all 2x2 matrices over {-1,0,1,2}: one matrix, all pairs, matrix-vector
+void m2_unary_pairs()
+{
+  using L = ml<int, 2>;
+  std::string e = "matrix<int,2x2>/unary";
+  if (vf::entry_enabled(e))
+  {
+    vf::set_entry(e);
+    for (unsigned a = 0; a < 256; ++a)
+    {
+      if (!vf::mine(a))
+        continue;
+      L::op_t A(m2_of(a));
+      if (!vf::begin_case("A=#%u %s storage=static,view", a, show(A.p).c_str()))
+        continue;
+      vf::sample_case(1);
+      vf::add_evals(1);
+      vf::note_distinct(vf::hash_mix(vf::hash_str(e), a));
+      for (unsigned cfg = 0; cfg < 2; ++cfg)
+      {
+        vf::operands(a, cfg);
+        L::run_unary(A, cfg);
+      }
+    }
+  }
+  e = "matrix<int,2x2>/pairs";
+  if (vf::entry_enabled(e))
+  {
+    vf::set_entry(e);
+    for (unsigned a = 0; a < 256; ++a)
+    {
+      if (!vf::mine(a))
+        continue;
+      L::op_t A(m2_of(a));
+      for (unsigned cfg = 0; cfg < 4; ++cfg)
+      {
+        if (!vf::begin_case("A=#%u %s cfg=%u B=all 256 matrices over {-1,0,1,2} (ops: a b cfg)", a, show(A.p).c_str(), cfg))
+          continue;
+        vf::sample_case(1);
+        vf::add_evals(255);
+        vf::note_distinct(vf::hash_mix(vf::hash_str(e), a * 4 + cfg));
+        for (unsigned b = 0; b < 256; ++b)
+        {
+          vf::operands(a, b, cfg);
+          L::op_t B(m2_of(b));
+          VF_COUNT("m2/pairs");
+          L::run_pair(A, B, static_cast<ll>((a * 7U + b * 3U + cfg) % 19U) - 9, cfg);
+        }
+      }
+    }
+  }
+  e = "matrix<int,2x2>/vectors";
+  if (vf::entry_enabled(e))
+  {
+    vf::set_entry(e);
+    for (unsigned a = 0; a < 256; ++a)
+    {
+      if (!vf::mine(a))
+        continue;
+      L::op_t A(m2_of(a));
+      unsigned const bi = (a * 37U + 11U) % 256U;
+      L::op_t B(m2_of(bi));
+      if (!vf::begin_case("A=#%u %s B=#%u u,v=all 16x16 vectors over {-1,0,1,2} (ops: a u v cfg)", a, show(A.p).c_str(), bi))
+        continue;
+      vf::sample_case(1);
+      vf::add_evals(255);
+      vf::note_distinct(vf::hash_mix(vf::hash_str(e), a));
+      for (unsigned ui = 0; ui < 16; ++ui)
+        for (unsigned vi = 0; vi < 16; ++vi)
+        {
+          unsigned const cfg = (a + ui * 5U + vi) % 12U;
+          vf::operands(a, ui, vi, cfg);
+          L::vec_t u(v2_of(ui)), v(v2_of(vi));
+          VF_COUNT("m2/matvec");
+          L::run_matvec(A, B, u, v, cfg);
+        }
+    }
+  }
+}
+
+void m2_triples()
+{
+  using L = ml<int, 2>;
+  std::string e = "matrix<int,2x2>/triples";
+  if (!vf::entry_enabled(e))
+    return;
+  vf::set_entry(e);
+  bool const all = vf::thorough();
+  for (unsigned a = 0; a < 256; ++a)
+  {
+    if (!vf::mine(a))
+      continue;
+    L::op_t A(m2_of(a));
+    vf::rng g(vf::seed_for(e, a));
+    if (!vf::begin_case("A=#%u %s B=all 256 C=%s (ops: a b c cfg)", a, show(A.p).c_str(),
+                        all ? "all 256" : "3 per (A,B), seeded"))
+      continue;
+    vf::sample_case(1);
+    vf::note_distinct(vf::hash_mix(vf::hash_str(e), vf::hash_mix(a, all ? 0 : g.s)));
+    for (unsigned b = 0; b < 256; ++b)
+    {
+      L::op_t B(m2_of(b));
+      unsigned const nc = all ? 256U : 3U;
+      for (unsigned ci = 0; ci < nc; ++ci)
+      {
+        unsigned const cidx = all ? ci : static_cast<unsigned>(g.below(256));
+        unsigned const cfg = (a + b + cidx) % 4U;
+        vf::operands(a, b, cidx, cfg);
+        L::op_t C(m2_of(cidx));
+        VF_COUNT("m2/triples");
+        L::run_triple(A, B, C, cfg);
+      }
+      vf::add_evals(nc);
+    }
+  }
+}
+
+template <class T, size_type N, bool Algebra, bool Products>
+void random_matrices(char const *suffix)
+{
+  using L = ml<T, N>;
+  std::string e = std::string("matrix<") + tn<T>() + "," + std::to_string(N) + "x" + std::to_string(N) + ">/" + suffix;
+  if (!vf::entry_enabled(e))
+    return;
+  vf::set_entry(e);
+  std::uint64_t const n = vf::tier<std::uint64_t>(10000, 1000000);
+  for (std::uint64_t i = 0; i < n; ++i)
+  {
+    if (!vf::mine(i))
+      continue;
+    vf::rng g(vf::seed_for(e, i));
+    typename L::op_t A(rnd_matrix<N>(g));
+    typename L::op_t B(rnd_matrix_near<N>(g, A.p));
+    typename L::op_t C(rnd_matrix<N>(g));
+    typename L::vec_t u(rnd_vec<N>(g)), v(rnd_vec<N>(g));
+    ll const k = g.range(-9, 9);
+    unsigned const cfg = static_cast<unsigned>(g.next() & 0xffffU);
+    if (!vf::begin_case("i=%llu cfg=%u A=%s B=%s C=%s u=%s v=%s k=%lld", static_cast<unsigned long long>(i), cfg,
+                        show(A.p).c_str(), show(B.p).c_str(), show(C.p).c_str(), show(u.p).c_str(),
+                        show(v.p).c_str(), k))
+      continue;
+    vf::sample_case(2);
+    vf::note_distinct(hash_pm(A.p, hash_pm(B.p, hash_pm(C.p, vf::hash_mix(vf::hash_str(e), cfg)))));
+    if constexpr (Algebra)
+    {
+      VF_COUNT("random/matrix-algebra-cases");
+      L::run_unary(A, cfg);
+      L::run_pair(A, B, k, cfg >> 1);
+    }
+    if constexpr (Products)
+    {
+      VF_COUNT("random/matrix-product-cases");
+      L::run_triple(A, B, C, cfg >> 3);
+      L::run_matvec(A, B, u, v, cfg >> 5);
+    }
+  }
+}
+
+// translation and scaling builders (4x4, homogeneous coordinates), all (x,y,z) in [-9,9]^3
+template <class T, bool Laws>
+void builders()
+{
+  std::string e = std::string("matrix<") + tn<T>() + ",4x4>/builders";
+  if (!vf::entry_enabled(e))
+    return;
+  vf::set_entry(e);
+  namespace mx = fm::matrix;
+  using M4 = mx::static_<T, 4, 4>;
+  for (int x = -9; x <= 9; ++x)
+  {
+    if (!vf::mine(static_cast<unsigned>(x + 9)))
+      continue;
+    if (!vf::begin_case("x=%d y,z=all of [-9,9]^2 (ops: x y z)", x))
+      continue;
+    vf::sample_case(1);
+    vf::add_evals(19 * 19 - 1);
+    vf::note_distinct(vf::hash_mix(vf::hash_str(e), static_cast<std::uint64_t>(x + 9)));
+    for (int y = -9; y <= 9; ++y)
+      for (int z = -9; z <= 9; ++z)
+      {
+        vf::operands(x, y, z);
+        VF_COUNT("builders/cases");
+        ctx c{std::string(tn<T>()) + ",4x4",
+              [&] { return "x=" + std::to_string(x) + " y=" + std::to_string(y) + " z=" + std::to_string(z); }};
+        pm<4, 4> pt = p_id<4>(), ps = p_id<4>();
+        pt[0][3] = x;
+        pt[1][3] = y;
+        pt[2][3] = z;
+        ps[0][0] = x;
+        ps[1][1] = y;
+        ps[2][2] = z;
+        T const tx = static_cast<T>(x), ty = static_cast<T>(y), tz = static_cast<T>(z);
+        vec_op<T, 3> t(pv<3>{x, y, z});
+        M4 const Tm = mx::translation(tx, ty, tz);
+        M4 const Sm = mx::scaling(tx, ty, tz);
+        want_m(c, "matrix::translation", Tm, pt);
+        want_m(c, "matrix::scaling", Sm, ps);
+        switch ((x + y + z + 27) % 4)
+        {
+        case 0:
+          want_m(c, "matrix::translation(vector)", mx::translation(t.st()), pt, "s");
+          want_m(c, "matrix::scaling(vector)", mx::scaling(t.vw()), ps, "v");
+          break;
+        case 1:
+          want_m(c, "matrix::translation(vector)", mx::translation(t.vw()), pt, "v");
+          want_m(c, "matrix::scaling(vector)", mx::scaling(t.st()), ps, "s");
+          break;
+        case 2:
+          want_m(c, "matrix::translation(vector)", mx::translation(t.rs()), pt, "r");
+          want_m(c, "matrix::scaling(vector)", mx::scaling(t.rv()), ps, "q");
+          break;
+        default:
+          want_m(c, "matrix::translation(vector)", mx::translation(t.rv()), pt, "q");
+          want_m(c, "matrix::scaling(vector)", mx::scaling(t.rs()), ps, "r");
+        }
+        if constexpr (Laws)
+        {
+          // a point p=(2,-3,5,1) is moved / scaled; translations compose by adding
+          fm::vector::static_<T, 4> const p(static_cast<T>(2), static_cast<T>(-3), static_cast<T>(5), static_cast<T>(1));
+          want_v(c, "law:translation(t)*(p,1)=(p+t,1)", Tm * p, pv<4>{2 + x, -3 + y, 5 + z, 1});
+          want_v(c, "law:scaling(s)*(p,1)=(s*p,1)", Sm * p, pv<4>{2 * x, -3 * y, 5 * z, 1});
+          ident_m(c, "law:translation(a)*translation(b)=translation(a+b)",
+                  Tm * mx::translation(static_cast<T>(z), static_cast<T>(x), static_cast<T>(-y)),
+                  mx::translation(static_cast<T>(x + z), static_cast<T>(y + x), static_cast<T>(z - y)));
+          want_s(c, "law:det(scaling(x,y,z))=xyz", mx::determinant(Sm), static_cast<ll>(x) * y * z);
+          want_s(c, "law:det(translation)=1", mx::determinant(Tm), 1);
+        }
+      }
+  }
+}
+
+template <class K, class T, size_type N>
+void random_vectors()
+{
+  using L = vl<K, T, N>;
+  std::string const base = std::string(K::name()) + "<" + tn<T>() + "," + std::to_string(N) + ">";
+  std::string e = base + "/random";
+  if (vf::entry_enabled(e))
+  {
+    vf::set_entry(e);
+    std::uint64_t const n = vf::tier<std::uint64_t>(10000, 1000000);
+    for (std::uint64_t i = 0; i < n; ++i)
+    {
+      if (!vf::mine(i))
+        continue;
+      vf::rng g(vf::seed_for(e, i));
+      pv<N> const u = rnd_vec<N>(g);
+      pv<N> const v = rnd_vec_near<N>(g, u);
+      ll const k = g.range(-9, 9);
+      unsigned const cfg = static_cast<unsigned>(g.below(12));
+      if (!vf::begin_case("i=%llu cfg=%u u=%s v=%s k=%lld", static_cast<unsigned long long>(i), cfg, show(u).c_str(),
+                          show(v).c_str(), k))
+        continue;
+      vf::sample_case(1);
+      vf::note_distinct(hash_ll(u.data(), N, hash_ll(v.data(), N, vf::hash_mix(vf::hash_str(e), cfg * 32U + static_cast<unsigned>(k + 9)))));
+      VF_COUNT("random/vector-dim-cases");
+      L::run(u, v, k, cfg);
+    }
+  }
+  // exhaustive part: dimension 1 all pairs in every storage combination; dimension 2 all u, v sampled (quick) or all (thorough)
+  if constexpr (N <= 2)
+  {
+    e = base + "/exhaustive";
+    if (!vf::entry_enabled(e))
+      return;
+    vf::set_entry(e);
+    unsigned const total = N == 1 ? 19U : 361U;
+    auto of = [](unsigned idx) {
+      pv<N> r{};
+      if constexpr (N == 1)
+        r[0] = static_cast<ll>(idx) - 9;
+      else
+      {
+        r[0] = static_cast<ll>(idx / 19U) - 9;
+        r[1] = static_cast<ll>(idx % 19U) - 9;
+      }
+      return r;
+    };
+    unsigned const ncfg = K::is_vector ? 6U : 4U;
+    for (unsigned ui = 0; ui < total; ++ui)
+    {
+      if (!vf::mine(ui))
+        continue;
+      pv<N> const u = of(ui);
+      bool const allv = N == 1 || vf::thorough();
+      vf::rng g(vf::seed_for(e, ui));
+      if (!vf::begin_case("u=%s v=%s (ops: u v cfg)", show(u).c_str(), allv ? "all of [-9,9]^N" : "24 seeded"))
+        continue;
+      vf::sample_case(1);
+      vf::note_distinct(vf::hash_mix(vf::hash_str(e), vf::hash_mix(ui, allv ? 0 : g.s)));
+      unsigned const nv = allv ? total : 24U;
+      for (unsigned j = 0; j < nv; ++j)
+      {
+        unsigned const vi = allv ? j : static_cast<unsigned>(g.below(total));
+        pv<N> const v = of(vi);
+        for (unsigned cfg = 0; cfg < ncfg; ++cfg)
+        {
+          if (N == 2 && cfg != (ui + vi) % ncfg)
+            continue;
+          vf::operands(ui, vi, cfg);
+          VF_COUNT("exhaustive/vector-dim-pairs");
+          L::run(u, v, static_cast<ll>((ui + 3U * vi) % 19U) - 9, cfg);
+          vf::add_evals(1);
+        }
+      }
+    }
+  }
+}
+
+// ------------------------------------------------------------------ proxy-reference storage (judged: only what goes
+// through element access, same-type copy, assignment and ==, i.e. what test/math/vector/raw_view.cpp demonstrates)
+void raw_view_vectors()
+{
+  std::string e = "vector<int,3>/raw_view";
+  if (!vf::entry_enabled(e) || !vf::mine(vf::hash_str(e)))
+    return;
+  vf::set_entry(e);
+  using RS = raw_view<int, 3>;
+  using R = fm::vector::object<int, 3, RS>;
+  using S = fm::vector::static_<int, 3>;
+  unsigned const n = vf::tier(2000U, 100000U);
+  for (unsigned i = 0; i < n; ++i)
+  {
+    vf::rng g(vf::seed_for(e, i));
+    pv<3> const pu = rnd_vec<3>(g), pw = rnd_vec_near<3>(g, pu);
+    unsigned const off = static_cast<unsigned>(g.below(4)); // unaligned on purpose
+    if (!vf::begin_case("i=%u offset=%u u=%s v=%s", i, off, show(pu).c_str(), show(pw).c_str()))
+      continue;
+    vf::sample_case(1);
+    vf::note_distinct(hash_ll(pu.data(), 3, hash_ll(pw.data(), 3, vf::hash_mix(vf::hash_str(e), off))));
+    VF_COUNT("storage/vector/raw_view");
+    ctx c{"int,3,raw", [&] { return "u=" + show(pu) + " v=" + show(pw) + " offset=" + std::to_string(off); }};
+    std::array<unsigned char, 3 * sizeof(int) + 4> bytes{};
+    R r{RS{bytes.data() + off}};
+    r.x() = static_cast<int>(pu[0]);
+    r.get_unsafe(1) = static_cast<int>(pu[1]);
+    fm::vector::at<2>(r) = static_cast<int>(pu[2]);
+    for (std::size_t j = 0; j < 3; ++j)
+    {
+      int b = 0;
+      std::memcpy(&b, bytes.data() + off + j * sizeof(int), sizeof(int));
+      want_s(c, "vector::object::get_unsafe", b, pu[j], "write-through-raw-view");
+    }
+    R const rc(r);
+    want_s(c, "vector::object::x", static_cast<int>(rc.x()), pu[0]);
+    want_s(c, "vector::object::y", static_cast<int>(rc.y()), pu[1]);
+    want_s(c, "vector::object::z", static_cast<int>(rc.z()), pu[2]);
+    want_s(c, "vector::at", static_cast<int>(fm::vector::at<1>(rc)), pu[1]);
+    vec_op<int, 3> w(pw);
+    S const sw = w.st();
+    want_b(c, "vector::operator==", rc == sw, pu == pw);
+    want_b(c, "vector::operator!=", sw != rc, pu != pw);
+    r = sw;
+    want_v(c, "vector::object::operator=(other storage)", r, pw);
+    r = w.rv();
+    want_b(c, "vector::operator==", r == w.vw(), true, "copy");
+  }
+}
+
+// ------------------------------------------------------------------ observed only (not named by the statement)
+void observed()
+{
+  raw_view_vectors();
+  std::string e = "observed/neighbours";
+  if (!vf::entry_enabled(e) || !vf::mine(vf::hash_str(e)))
+    return;
+  vf::set_entry(e);
+  if (!vf::begin_case("operator/, vector(+-*)dim, to_vector/to_dim, map, bit_strings, inverse"))
+    return;
+  unsigned surprises = 0, calls = 0;
+  auto note = [&](bool ok, std::string const &what) {
+    ++calls;
+    if (!ok)
+    {
+      ++surprises;
+      vf::observation(what + " (observed only; not judged by C14)");
+    }
+  };
+  using V3 = fm::vector::static_<int, 3>;
+  using D3 = fm::dim::static_<int, 3>;
+  vf::rng g(vf::seed_for(e));
+  for (unsigned i = 0; i < 2000; ++i)
+  {
+    pv<3> const pu = rnd_vec<3>(g), pw = rnd_vec<3>(g);
+    ll const k = g.range(-3, 3);
+    vec_op<int, 3> u(pu), w(pw);
+    dim_op<int, 3> d(pw);
+    vf::operands(i);
+    // division: nothing iff a divisor is zero, else the truncating quotient per component
+    {
+      auto const q = u.vw() / w.st();
+      bool zero = false;
+      pv<3> want{};
+      for (std::size_t j = 0; j < 3; ++j)
+      {
+        zero = zero || pw[j] == 0;
+        if (pw[j] != 0)
+          want[j] = pu[j] / pw[j];
+      }
+      note(q.has_value() == !zero && (zero || plain_v(q.get_unsafe()) == want),
+           "vector / vector differs from the component-wise quotient for u=" + show(pu) + " v=" + show(pw));
+      auto const qs = u.st() / static_cast<int>(k);
+      pv<3> wants{};
+      if (k != 0)
+        for (std::size_t j = 0; j < 3; ++j)
+          wants[j] = pu[j] / k;
+      note(qs.has_value() == (k != 0) && (k == 0 || plain_v(qs.get_unsafe()) == wants),
+           "vector / scalar differs from the component-wise quotient for u=" + show(pu) + " k=" + std::to_string(k));
+      auto const qd = d.st() / d.vw();
+      note(qd.has_value() == !zero, "dim / dim has_value differs for d=" + show(pw));
+    }
+    // vector op dim
+    note(plain_v(u.st() + d.vw()) == p_zip(pu, pw, std::plus<ll>{}), "vector + dim differs for " + show(pu) + show(pw));
+    note(plain_v(u.vw() - d.st()) == p_zip(pu, pw, std::minus<ll>{}), "vector - dim differs for " + show(pu) + show(pw));
+    note(plain_v(u.rs() * d.st()) == p_zip(pu, pw, std::multiplies<ll>{}), "vector * dim differs for " + show(pu) + show(pw));
+    // conversions and map
+    note(plain_v(fm::vector::to_dim(u.vw())) == pu, "to_dim changes components of " + show(pu));
+    note(plain_v(fm::dim::to_vector(d.vw())) == pw, "to_vector changes components of " + show(pw));
+    note(plain_v(fm::vector::map(u.rv(), [](int x) { return x * x - 1; })) ==
+             p_zip(pu, pu, [](ll a, ll b) { return a * b - 1; }),
+         "vector::map differs from the component-wise map for " + show(pu));
+    (void)sizeof(V3);
+    (void)sizeof(D3);
+  }
+  // bit_strings: element i has component j equal to bit j of i (documentation example)
+  {
+    auto check_bits = [&](auto const &arr, std::size_t n) {
+      std::size_t i = 0;
+      for (auto const &v : arr)
+      {
+        bool ok = true;
+        for (std::size_t j = 0; j < n; ++j)
+          ok = ok && static_cast<ll>(v.storage()[static_cast<size_type>(j)]) == static_cast<ll>((i >> j) & 1U);
+        note(ok, "bit_strings<int," + std::to_string(n) + ">: element " + std::to_string(i) + " is not the bit string of its index");
+        ++i;
+      }
+      note(i == (std::size_t{1} << n), "bit_strings<int," + std::to_string(n) + "> has " + std::to_string(i) + " elements");
+    };
+    check_bits(fm::vector::bit_strings<int, 1>(), 1);
+    check_bits(fm::vector::bit_strings<int, 2>(), 2);
+    check_bits(fm::vector::bit_strings<int, 3>(), 3);
+  }
+  // inverse over the integers: only meaningful when det = +-1
+  {
+    unsigned unimodular = 0;
+    for (unsigned a = 0; a < 256; ++a)
+    {
+      pm<2, 2> const pa = m2_of(a);
+      ll const d = p_det(pa);
+      if (d != 1 && d != -1)
+        continue;
+      ++unimodular;
+      mat_op<int, 2, 2> A(pa);
+      vf::operands(a);
+      note(plain_m(A.vw() * fm::matrix::inverse(A.st())) == p_id<2>(), "A*inverse(A) != I for unimodular A=" + show(pa));
+      note(plain_m(fm::matrix::inverse(A.vw())) == p_smul(d, p_adj(pa)), "inverse(A) != det*adj(A) for unimodular A=" + show(pa));
+    }
+    vf::count("observed/inverse/unimodular-2x2", unimodular);
+  }
+  vf::add_evals(calls);
+  vf::count("observed/calls", calls);
+  vf::count("observed/surprises", surprises);
+}
+
+#ifndef VF_SLICE
+#define VF_SLICE -2 // single translation unit build: everything
+#endif
+#define VF_IN_SLICE(i) (VF_SLICE == (i) || VF_SLICE == -2)
+}
+
+#if VF_IN_SLICE(0)
+void vf_slice_0() { m2_unary_pairs(); }
+#endif
+#if VF_IN_SLICE(1)
+void vf_slice_1() { m2_triples(); }
+#endif
+#if VF_IN_SLICE(2)
+void vf_slice_2() { random_matrices<int, 3, true, true>("random"); }
+#endif
+#if VF_IN_SLICE(3)
+void vf_slice_3() { random_matrices<long, 4, true, false>("random-algebra"); }
+#endif
+#if VF_IN_SLICE(4)
+void vf_slice_4()
+{
+  random_matrices<long, 4, false, true>("random-products");
+  builders<long, true>();
+}
+#endif
+#if VF_IN_SLICE(5)
+void vf_slice_5()
+{
+  random_vectors<vec_kind, int, 1>();
+  random_vectors<vec_kind, int, 2>();
+}
+#endif
+#if VF_IN_SLICE(6)
+void vf_slice_6() { random_vectors<vec_kind, int, 3>(); }
+#endif
+#if VF_IN_SLICE(7)
+void vf_slice_7() { random_vectors<vec_kind, int, 4>(); }
+#endif
+#if VF_IN_SLICE(8)
+void vf_slice_8()
+{
+  random_vectors<dim_kind, int, 1>();
+  random_vectors<dim_kind, int, 2>();
+  random_vectors<dim_kind, int, 3>();
+  random_vectors<dim_kind, int, 4>();
+}
+#endif
+#if VF_IN_SLICE(9)
+void vf_slice_9()
+{
+  builders<int, false>();
+  observed();
+}
+#endif
+
+#if VF_SLICE < 0
+void vf_slice_0();
+void vf_slice_1();
+void vf_slice_2();
+void vf_slice_3();
+void vf_slice_4();
+void vf_slice_5();
+void vf_slice_6();
+void vf_slice_7();
+void vf_slice_8();
+void vf_slice_9();
+namespace
+{
+void body()
+{
+  for (char const *b :
+       {"judged/model-comparisons", "judged/identities", "m2/pairs", "m2/triples", "m2/matvec",
+        "random/matrix-algebra-cases", "random/matrix-product-cases", "random/vector-dim-cases",
+        "exhaustive/vector-dim-pairs", "builders/cases", "matrix/det/zero", "matrix/det/nonzero",
+        "matrix/nonsymmetric", "matrix/noncommuting-pair", "matrix/matvec/nonzero-result", "matrix/cmp/equal",
+        "matrix/cmp/different", "matrix/cmp/differ-in-one-entry", "matrix/cmp/differ-in-last-entry-only",
+        "storage/matrix/static,static", "storage/matrix/view,view", "storage/matrix/static,view",
+        "storage/matrix/view,static", "storage/vector/static,static", "storage/vector/view,view",
+        "storage/vector/static,view", "storage/vector/view,static",
+        "storage/vector/row-of-static-matrix,row-of-view-matrix",
+        "storage/vector/row-of-view-matrix,row-of-static-matrix", "storage/dim/static,static",
+        "storage/dim/view,view", "storage/dim/static,view", "storage/dim/view,static", "vector/dot/nonzero",
+        "vector/cross/nonzero", "vector/cross/zero", "cmp/equal", "cmp/less", "cmp/greater",
+        "cmp/differ-in-last-component-only", "cmp/equal-prefix-then-different",
+        "cmp/later-component-ordered-the-other-way", "storage/vector/raw_view", "observed/calls"})
+    vf::require_bucket(b);
+  vf_slice_0();
+  vf_slice_1();
+  vf_slice_2();
+  vf_slice_3();
+  vf_slice_4();
+  vf_slice_5();
+  vf_slice_6();
+  vf_slice_7();
+  vf_slice_8();
+  vf_slice_9();
+}
+}
+VF_MAIN(body)
+#endif
